@@ -628,6 +628,7 @@ func (w *World) Run(s Scheduler, lim RunLimits, done func() bool) *Violation {
 			s = &CanonicalSched{}
 		}
 		synctest.Wait()
+		prng.Heartbeat.Add(1)
 		w.seal()
 		if w.PanicCount() > 0 {
 			return nil // the caller turns recorded panics into violations
